@@ -9,6 +9,16 @@ use std::io::Read;
 use std::rc::Rc;
 
 /// A reader that hands out `data[..avail]` in the scheduled chunk sizes, then ends with EOF or an error.
+/// a call into the crate with a panic turned into an error value (a panic inside the crate is data, not a harness failure)
+macro_rules! g {
+    ($e:expr) => {
+        match std::panic::catch_unwind(std::panic::AssertUnwindSafe(|| $e)) {
+            Ok(r) => r,
+            Err(_) => Err(<serde_saphyr::Error as serde::de::Error>::custom("PANIC inside the crate")),
+        }
+    };
+}
+
 pub struct SchedReader {
     data: Vec<u8>,
     avail: usize,
@@ -235,10 +245,16 @@ struct WriterRec<'a> {
 }
 
 fn run_entry(entry: &str, rd: SchedReader, cap: i64) -> Out {
+    match std::panic::catch_unwind(std::panic::AssertUnwindSafe(|| run_entry_inner(entry, rd, cap))) {
+        Ok(o) => o,
+        Err(_) => Out { res: "err".into(), cls: "PANIC".into(), line: 0, col: 0, val: String::new() },
+    }
+}
+fn run_entry_inner(entry: &str, rd: SchedReader, cap: i64) -> Out {
     match entry {
-        "reader-lenient" => out_of(serde_saphyr::from_reader_with_options::<_, Lenient>(rd, opts(cap))),
-        "reader" => out_of(serde_saphyr::from_reader_with_options::<_, Tree>(rd, opts(cap)).map(|t| TJ(tree_json(&t)))),
-        "wd" => out_of(serde_saphyr::with_deserializer_from_reader_with_options(rd, opts(cap), |de| <Tree as serde::Deserialize>::deserialize(de)).map(|t| TJ(tree_json(&t)))),
+        "reader-lenient" => out_of(g!(serde_saphyr::from_reader_with_options::<_, Lenient>(rd, opts(cap)))),
+        "reader" => out_of(g!(serde_saphyr::from_reader_with_options::<_, Tree>(rd, opts(cap)).map(|t| TJ(tree_json(&t))))),
+        "wd" => out_of(g!(serde_saphyr::with_deserializer_from_reader_with_options(rd, opts(cap), |de| <Tree as serde::Deserialize>::deserialize(de)).map(|t| TJ(tree_json(&t))))),
         "read" => {
             let mut rd = rd;
             let mut vals = vec![];
@@ -266,8 +282,8 @@ fn run_entry(entry: &str, rd: SchedReader, cap: i64) -> Out {
 }
 fn ref_entry(entry: &str, text: &str) -> Out {
     match entry {
-        "reader" | "wd" => out_of(serde_saphyr::from_str_with_options::<Tree>(text, opts(-1)).map(|t| TJ(tree_json(&t)))),
-        _ => out_of(serde_saphyr::from_multiple_with_options::<Tree>(text, opts(-1)).map(|v| TJ(serde_json::Value::Array(v.iter().map(tree_json).collect())))),
+        "reader" | "wd" => out_of(g!(serde_saphyr::from_str_with_options::<Tree>(text, opts(-1)).map(|t| TJ(tree_json(&t))))),
+        _ => out_of(g!(serde_saphyr::from_multiple_with_options::<Tree>(text, opts(-1)).map(|v| TJ(serde_json::Value::Array(v.iter().map(tree_json).collect()))))),
     }
 }
 
@@ -349,13 +365,13 @@ fn agree_outs<T: serde::de::DeserializeOwned + serde::Serialize>(text: &str) -> 
     let n = text.len().max(1);
     let o = || opts(-1);
     vec![
-        ("str".into(), out_of(serde_saphyr::from_str_with_options::<T>(text, o()))),
-        ("slice".into(), out_of(serde_saphyr::from_slice_with_options::<T>(text.as_bytes(), o()))),
-        ("reader-ones".into(), out_of(serde_saphyr::from_reader_with_options::<_, T>(SchedReader::new(text.as_bytes(), text.len(), vec![1; n], false, std::io::ErrorKind::Other), o()))),
-        ("reader-big".into(), out_of(serde_saphyr::from_reader_with_options::<_, T>(SchedReader::new(text.as_bytes(), text.len(), vec![4096], false, std::io::ErrorKind::Other), o()))),
-        ("wd-str".into(), out_of(serde_saphyr::with_deserializer_from_str_with_options(text, o(), |de| T::deserialize(de)))),
-        ("wd-slice".into(), out_of(serde_saphyr::with_deserializer_from_slice_with_options(text.as_bytes(), o(), |de| T::deserialize(de)))),
-        ("wd-reader".into(), out_of(serde_saphyr::with_deserializer_from_reader_with_options(SchedReader::new(text.as_bytes(), text.len(), vec![3; n], false, std::io::ErrorKind::Other), o(), |de| T::deserialize(de)))),
+        ("str".into(), out_of(g!(serde_saphyr::from_str_with_options::<T>(text, o())))),
+        ("slice".into(), out_of(g!(serde_saphyr::from_slice_with_options::<T>(text.as_bytes(), o())))),
+        ("reader-ones".into(), out_of(g!(serde_saphyr::from_reader_with_options::<_, T>(SchedReader::new(text.as_bytes(), text.len(), vec![1; n], false, std::io::ErrorKind::Other), o())))),
+        ("reader-big".into(), out_of(g!(serde_saphyr::from_reader_with_options::<_, T>(SchedReader::new(text.as_bytes(), text.len(), vec![4096], false, std::io::ErrorKind::Other), o())))),
+        ("wd-str".into(), out_of(g!(serde_saphyr::with_deserializer_from_str_with_options(text, o(), |de| T::deserialize(de))))),
+        ("wd-slice".into(), out_of(g!(serde_saphyr::with_deserializer_from_slice_with_options(text.as_bytes(), o(), |de| T::deserialize(de))))),
+        ("wd-reader".into(), out_of(g!(serde_saphyr::with_deserializer_from_reader_with_options(SchedReader::new(text.as_bytes(), text.len(), vec![3; n], false, std::io::ErrorKind::Other), o(), |de| T::deserialize(de))))),
     ]
 }
 /// the untyped tree behind trivially passing validation: the validating entry points must behave like the plain ones
@@ -375,13 +391,13 @@ fn agree_outs_validating(text: &str) -> Vec<(String, Out)> {
     let tj = |r: Result<VTree, serde_saphyr::Error>| out_of(r.map(|t| TJ(tree_json(&t.0))));
     let rd = || SchedReader::new(text.as_bytes(), text.len(), vec![5; text.len().max(1)], false, std::io::ErrorKind::Other);
     vec![
-        ("str".into(), out_of(serde_saphyr::from_str::<Tree>(text).map(|t| TJ(tree_json(&t))))),
-        ("str-valid".into(), tj(serde_saphyr::from_str_valid::<VTree>(text))),
-        ("str-validate".into(), tj(serde_saphyr::from_str_validate::<VTree>(text))),
-        ("slice-valid".into(), tj(serde_saphyr::from_slice_valid::<VTree>(text.as_bytes()))),
-        ("slice-validate".into(), tj(serde_saphyr::from_slice_validate::<VTree>(text.as_bytes()))),
-        ("reader-valid".into(), tj(serde_saphyr::from_reader_valid::<_, VTree>(rd()))),
-        ("reader-validate".into(), tj(serde_saphyr::from_reader_validate::<_, VTree>(rd()))),
+        ("str".into(), out_of(g!(serde_saphyr::from_str::<Tree>(text).map(|t| TJ(tree_json(&t)))))),
+        ("str-valid".into(), tj(g!(serde_saphyr::from_str_valid::<VTree>(text)))),
+        ("str-validate".into(), tj(g!(serde_saphyr::from_str_validate::<VTree>(text)))),
+        ("slice-valid".into(), tj(g!(serde_saphyr::from_slice_valid::<VTree>(text.as_bytes())))),
+        ("slice-validate".into(), tj(g!(serde_saphyr::from_slice_validate::<VTree>(text.as_bytes())))),
+        ("reader-valid".into(), tj(g!(serde_saphyr::from_reader_valid::<_, VTree>(rd())))),
+        ("reader-validate".into(), tj(g!(serde_saphyr::from_reader_validate::<_, VTree>(rd())))),
     ]
 }
 #[derive(Serialize)]
@@ -402,6 +418,9 @@ struct TFRec<'a> {
     single: Out,
 }
 fn typed_items<T: serde::de::DeserializeOwned + serde::Serialize>(rd: SchedReader, cap: i64) -> Vec<String> {
+    std::panic::catch_unwind(std::panic::AssertUnwindSafe(|| typed_items_inner::<T>(rd, cap))).unwrap_or_else(|_| vec!["PANIC".to_string()])
+}
+fn typed_items_inner<T: serde::de::DeserializeOwned + serde::Serialize>(rd: SchedReader, cap: i64) -> Vec<String> {
     let mut rd = rd;
     let mut out = vec![];
     for (n, it) in serde_saphyr::read_with_options::<_, T>(&mut rd, opts(cap)).enumerate() {
@@ -418,7 +437,7 @@ fn typed_fault_family<T: serde::de::DeserializeOwned + serde::Serialize>(target:
         let ref_items = typed_items::<T>(SchedReader::new(bytes, n, vec![4096], false, std::io::ErrorKind::Other), -1);
         let mut put = |id: String, avail: usize, ending: &str, cap: i64, sched: Vec<usize>, w: &mut NdWriter| {
             let items = typed_items::<T>(SchedReader::new(bytes, avail, sched.clone(), ending == "fault", std::io::ErrorKind::Other), cap);
-            let single = out_of(serde_saphyr::from_reader_with_options::<_, T>(SchedReader::new(bytes, avail, sched, ending == "fault", std::io::ErrorKind::Other), opts(cap)));
+            let single = out_of(g!(serde_saphyr::from_reader_with_options::<_, T>(SchedReader::new(bytes, avail, sched, ending == "fault", std::io::ErrorKind::Other), opts(cap))));
             w.put(&TFRec { id, kind: "typed-fault", target, yaml: text, ws: ws.clone(), avail, ending, cap, items, ref_items: ref_items.clone(), single });
         };
         for k in 0..=n {
@@ -673,13 +692,13 @@ pub fn run(args: &Args) -> i32 {
         let ncalls = probe.calls;
         for k in 1..=ncalls {
             let mut fw = FaultyWriter { got: vec![], fail_at_call: Some(k), byte_limit: None, calls: 0 };
-            let r = serde_saphyr::to_io_writer(&mut fw, &m);
+            let r = std::panic::catch_unwind(std::panic::AssertUnwindSafe(|| serde_saphyr::to_io_writer(&mut fw, &m))).unwrap_or_else(|_| Err(<serde_saphyr::ser_error::Error as serde::ser::Error>::custom("PANIC inside the crate")));
             let is_io = matches!(&r, Err(e) if format!("{e:?}").contains("IO") || format!("{e}").contains("injected"));
             w.put(&WriterRec { id: format!("wr-call{k}"), kind: "writer", mode: "call", k, full: &full_s, received: String::from_utf8_lossy(&fw.got).to_string(), res: if r.is_ok() { "ok" } else { "err" }, is_io });
         }
         for k in 0..full.len() {
             let mut fw = FaultyWriter { got: vec![], fail_at_call: None, byte_limit: Some(k), calls: 0 };
-            let r = serde_saphyr::to_io_writer(&mut fw, &m);
+            let r = std::panic::catch_unwind(std::panic::AssertUnwindSafe(|| serde_saphyr::to_io_writer(&mut fw, &m))).unwrap_or_else(|_| Err(<serde_saphyr::ser_error::Error as serde::ser::Error>::custom("PANIC inside the crate")));
             let is_io = matches!(&r, Err(e) if format!("{e:?}").contains("IO") || format!("{e}").contains("disk full"));
             // compare on bytes: lossy conversion could hide a cut inside a multi-byte char, so hex both
             w.put(&WriterRec { id: format!("wr-byte{k}"), kind: "writer", mode: "byte", k, full: &hex(&full), received: hex(&fw.got), res: if r.is_ok() { "ok" } else { "err" }, is_io });
